@@ -56,9 +56,9 @@ theorem bindRest_length (kwargs dflts : List (Name × Nat)) (names : List Name) 
     · contradiction
 
 /-- every valid call binds every named parameter: the number of named values is fixed by the signature -/
-theorem openNorm_named_length (v : Bool) (pos kwonly : List Name) (dflts : List (Name × Nat)) (c : Call) (n : Norm)
-    (h : openNorm v pos kwonly dflts c = some n) : n.named.length = pos.length + kwonly.length := by
-  unfold openNorm at h
+theorem openNorm0_named_length (v : Bool) (pos kwonly : List Name) (dflts : List (Name × Nat)) (c : Call) (n : Norm)
+    (h : openNorm0 v pos kwonly dflts c = some n) : n.named.length = pos.length + kwonly.length := by
+  unfold openNorm0 at h
   split at h
   · contradiction
   · split at h
@@ -97,9 +97,9 @@ theorem normKey_inj (v : Bool) (n1 n2 : Norm) (hl : n1.named.length = n2.named.l
 
 /-- the key AS WRITTEN is the reference key of every valid call, however it is spelled -/
 theorem openKey_of_norm (s : Sig) (pos : List Name) (c : Call) (n : Norm)
-    (h : openNorm s.varargs pos s.kwonly (kwargsDefaults s) c = some n) :
+    (h : openNorm0 s.varargs pos s.kwonly (kwargsDefaults s) c = some n) :
     openKey s pos c = some (normKey s.varargs n) := by
-  unfold openNorm at h
+  unfold openNorm0 at h
   split at h
   · contradiction
   · rename_i h1
@@ -130,15 +130,88 @@ theorem openKey_of_norm (s : Sig) (pos : List Name) (c : Call) (n : Norm)
               exact List.drop_append_of_le_length (by omega)
           simp [getArgsTupleE, hlen, hdrop, fillRest_eq_bindRest, hb, normKey]
 
+/-- a call without a keyword named like a positional-only parameter binds as if there were no such parameters -/
+theorem openNorm_of_clean (v : Bool) (po : Nat) (pos kwonly : List Name) (dflts : List (Name × Nat)) (c : Call)
+    (h : poClean po pos c = true) : openNorm v po pos kwonly dflts c = openNorm0 v pos kwonly dflts c := by
+  have hall : ∀ p ∈ c.kwargs, (!(pos.take po).contains p.1) = true := List.all_eq_true.mp h
+  have hk : kwBinding po pos c.kwargs = c.kwargs := List.filter_eq_self.mpr hall
+  have ho : optsOf (pos.drop po ++ kwonly) c.kwargs = optsOf (pos ++ kwonly) c.kwargs := by
+    unfold optsOf
+    congr 1
+    apply List.filter_congr
+    intro p hp
+    have h1 := hall p hp
+    have hsplit : pos = pos.take po ++ pos.drop po := (List.take_append_drop po pos).symm
+    have : (pos ++ kwonly).contains p.1 = (pos.drop po ++ kwonly).contains p.1 := by
+      conv => lhs; rw [hsplit]
+      simp only [Bool.not_eq_true', List.contains_eq_mem, List.mem_append, decide_eq_false_iff_not] at h1 ⊢
+      simp [h1]
+    rw [this]
+  unfold openNorm openNorm0
+  simp only [hk, ho]
+
+theorem openNorm_named_length (v : Bool) (po : Nat) (pos kwonly : List Name) (dflts : List (Name × Nat)) (c : Call) (n : Norm)
+    (h : openNorm v po pos kwonly dflts c = some n) : n.named.length = pos.length + kwonly.length := by
+  unfold openNorm at h
+  simp only at h
+  split at h
+  · contradiction
+  · split at h
+    · contradiction
+    · cases hb : bindRest (kwBinding po pos c.kwargs) dflts (pos.drop c.args.length ++ kwonly) with
+      | none => simp [hb] at h
+      | some vs =>
+        simp [hb] at h
+        subst h
+        have := bindRest_length _ _ _ _ hb
+        simp only [List.length_append, List.length_take, List.length_drop] at this ⊢
+        omega
+
+/-- without `*rest` a valid call has no overflow -/
+theorem openNorm_rest_nil (po : Nat) (pos kwonly : List Name) (dflts : List (Name × Nat)) (c : Call) (n : Norm)
+    (h : openNorm false po pos kwonly dflts c = some n) : n.rest = [] := by
+  unfold openNorm at h
+  simp only at h
+  split at h
+  · contradiction
+  · rename_i hlt
+    split at h
+    · contradiction
+    · cases hb : bindRest (kwBinding po pos c.kwargs) dflts (pos.drop c.args.length ++ kwonly) with
+      | none => simp [hb] at h
+      | some vs =>
+        simp [hb] at h
+        subst h
+        simp only [Bool.not_false, Bool.true_and, decide_eq_true_eq] at hlt
+        exact List.drop_of_length_le (by omega)
+
 /-- every call the refinement theorems cover has the reference key as its key -/
-theorem open_agree (s : Sig) (pos : List Name) (c : Call) (h : openCallOK s pos c = true) :
-    openKey s pos c = openRefKey s pos c := by
+theorem open_agree (s : Sig) (po : Nat) (pos : List Name) (c : Call) (h : openCallOK s po pos c = true) :
+    openKey s pos c = openRefKey s po pos c := by
   unfold openCallOK at h
-  cases hn : openNorm s.varargs pos s.kwonly (kwargsDefaults s) c with
-  | some n => simp [openRefKey, hn, openKey_of_norm s pos c n hn]
+  cases hn : openNorm s.varargs po pos s.kwonly (kwargsDefaults s) c with
+  | some n =>
+    simp only [hn] at h
+    have hn0 := hn
+    rw [openNorm_of_clean _ _ _ _ _ _ h] at hn0
+    simp [openRefKey, hn, openKey_of_norm s pos c n hn0]
   | none =>
-    simp only [hn, Option.isSome_none, Bool.false_or, Option.isNone_iff_eq_none] at h
+    simp only [hn, Option.isNone_iff_eq_none] at h
     simp [openRefKey, hn, h]
+
+theorem alru_open_agree (s : Sig) (po : Nat) (c : Call) (h : openCallOK s po s.args c = true) :
+    alruOpenKey s c = alruOpenRefKey s po c := by
+  unfold alruOpenKey alruOpenRefKey
+  split
+  · rfl
+  · exact open_agree s po s.args c h
+
+theorem perInst_open_agree (s : Sig) (po : Nat) (c : Call) (h : openCallOK s po (s.args.drop 1) c = true) :
+    perInstOpenKey s c = perInstOpenRefKey s po c := by
+  unfold perInstOpenKey perInstOpenRefKey
+  split
+  · rfl
+  · exact open_agree s po (s.args.drop 1) c h
 
 namespace PerInst
 
